@@ -129,7 +129,7 @@ def _rows_problems(calls, pp, t, nx, fluid, cls=None):
     return problems
 
 
-def replay_rows(model, cls="SinglePhaseReservoir", nx=4, nt=3, schedule=False):
+def replay_rows(model, cls="SinglePhaseReservoir", nx=4, nt=3, schedule=False, tdtype="f8"):
     """Real runs through the public API on the witness: the model's time grid (and the same grid with its steps scaled
     up, which lets the field relax further towards the schedule), the model's frac-face schedule and diffusivity (a
     duck-typed FlowProperties built from the solver's model) and the shipped gas table.  The havoc'd level of the
@@ -143,6 +143,12 @@ def replay_rows(model, cls="SinglePhaseReservoir", nx=4, nt=3, schedule=False):
         for k in range(1, nt):
             t.append(t[-1] + scale * float(model.get(f"dt{k}") or 10.0 ** (-k)))
         t = np.array(t)
+        if tdtype != "f8":
+            # whole days passed as an integer array (np.arange): increments of at least one
+            q = [int(round(t[0]))]
+            for v in np.diff(t):
+                q.append(q[-1] + max(1, int(round(v))))
+            t = np.array(q, dtype={"i8": "int64", "i4": "int32"}[tdtype])
         if cls == "IdealReservoir":
             res, calls = real_capture(cls, nx, t, None, None)
             runs.append((f"times {t.tolist()}", None, res, calls, t))
@@ -267,7 +273,7 @@ def _run(mod, cls, nx, nt, policy, schedule=False):
     return r, fluid, t
 
 
-def job_rows(job, cls, nx, nt, schedule=False, reachable=False):
+def job_rows(job, cls, nx, nt, schedule=False, reachable=False, tdtype="f8"):
     """reachable=False: every level is havoc'd inside C01's bounds (covers any number of steps; a counterexample may
     start from a level no run reaches and is then not confirmed by the replay).  reachable=True: the levels are the
     exact solutions from the real initial state (the first nt-1 steps only), so a counterexample is a real run."""
@@ -276,7 +282,7 @@ def job_rows(job, cls, nx, nt, schedule=False, reachable=False):
     job.stub("linear solve: capturing stub (records A, b, keyword arguments; returns an arbitrary vector - every level is havoc'd, "
              "bounded above by the initial value as C01 establishes)", "scipy.sparse.diags: exact dense model", "fluid*: contract stub")
     job.bound(rows_nx=nx, rows_steps=nt - 1)
-    tag = f"{cls}[nx={nx},steps={nt - 1}{',schedule' if schedule else ''}{',from the initial state' if reachable else ''}]"
+    tag = f"{cls}[nx={nx},steps={nt - 1}{',schedule' if schedule else ''}{',from the initial state' if reachable else ''}{',integer time grid' if tdtype != 'f8' else ''}]"
     if reachable:
         job.solve_defaults = {"elim": True}
     hold = {}
@@ -308,6 +314,8 @@ def job_rows(job, cls, nx, nt, schedule=False, reachable=False):
         SS.LinSolve.reset(pol)
         SS.reset_names()
         t, _ = times(nt)
+        if tdtype != "f8":
+            t = SymArray(list(t.d), tdtype)       # the stored field must not take its dtype (or anything else) from the time grid
         if cls == "IdealReservoir":
             hold["hi"] = Q(1)
             r = mod.IdealReservoir(Q(nx), fresh("pf"), fresh("pi", pos=True), None)
@@ -323,7 +331,7 @@ def job_rows(job, cls, nx, nt, schedule=False, reachable=False):
             r.simulate(t)
         return r, fluid, t, list(SS.LinSolve.calls)
 
-    rp = (replay_rows, {"cls": cls, "nx": nx, "nt": nt, "schedule": schedule})
+    rp = (replay_rows, {"cls": cls, "nx": nx, "nt": nt, "schedule": schedule, "tdtype": tdtype})
     for k, pr in enumerate(paths(job, run, [], max_paths=16)):
         if pr.exc is not None:
             job.errors.append(f"{tag} raised {pr.exc!r}")
@@ -471,6 +479,7 @@ def jobs(tier):
         out.append((f"rows-sched-{cls[:6]}", lambda j, c=cls: job_rows(j, c, 4, 4, schedule=(c != "IdealReservoir"))))
         for nx in ((3, 4) if tier == "quick" else (3, 4, 5, 6)):
             out.append((f"rows-reach-{cls[:6]}-{nx}", lambda j, c=cls, n=nx: job_rows(j, c, n, 3, schedule=(c != "IdealReservoir"), reachable=True)))
+        out.append((f"rows-reach-inttime-{cls[:6]}-3", lambda j, c=cls: job_rows(j, c, 3, 3, schedule=False, reachable=True, tdtype="i8")))
         out.append((f"tolerance-{cls[:6]}", lambda j, c=cls: job_tolerance(j, c)))
         out.append((f"flag-{cls[:6]}", lambda j, c=cls: job_flag(j, c)))
     return out
